@@ -70,10 +70,21 @@ def revStructures : List QrStructure := Gen.revProofStructure.map qrOfGen
 /-- `Parameters.bTwoZk = 2^AttributeSize · 2^(ChallengeLength+ZkStat) · 2`. -/
 def revBTwoZk : Int := 2 ^ Gen.revAttributeSize * (2 ^ (Gen.revChallengeLength + Gen.revZkStat) * 2)
 
+/-- `0 < c < n` and `gcd(c, n) = 1`. -/
+def unitModN (c n : Int) : Bool := decide (0 < c) && decide (c < n) && decide (Int.gcd c n = 1)
+
 /-- `proofStructure.verifyProofStructure`. -/
 def NonRevProof.structureOk (p : NonRevProof) : Bool :=
   Gen.revSecretNames.all (fun n => (p.response n).isSome) &&
     p.cr.isSome && p.cu.isSome && p.nu.isSome && p.challenge.isSome
+
+/-- `Proof.basesAreUnits(pk)`: the prover-chosen bases `C_r`, `C_u` are units modulo `n` and no
+    response is negative. -/
+def NonRevProof.basesAreUnits (pk : PublicKey) (p : NonRevProof) : Bool :=
+  (match p.cr, p.cu with
+   | some cr, some cu => unitModN cr pk.n && unitModN cu pk.n
+   | _, _ => false) &&
+  p.responses.all (fun kv => match kv.2 with | some r => decide (0 ≤ r) | none => false)
 
 /-- `Proof.SetExpected(pk, challenge, response)` (error = `none`). -/
 def NonRevProof.setExpected (o : SigOracle) (keyId : String) (pk : PublicKey) (p : NonRevProof)
@@ -85,7 +96,7 @@ def NonRevProof.setExpected (o : SigOracle) (keyId : String) (pk : PublicKey) (p
   let nu ← acc.nu
   let p' := { p with nu := some nu, challenge := some challenge,
                      responses := ("alpha", some response) :: p.responses.filter (·.1 ≠ "alpha") }
-  if !p'.structureOk then none
+  if !p'.structureOk || !p'.basesAreUnits pk then none
   pure p'
 
 /-- base lookup of `BaseMerge(pk, proofCommit{cr,cu,nu})`. -/
@@ -117,7 +128,7 @@ def NonRevProof.verifyWithChallenge (o : SigOracle) (keyId : String) (pk : Publi
   match p.sacc with
   | none => (false, none)
   | some sacc =>
-    if !p.structureOk then (false, none) else
+    if !p.structureOk || !p.basesAreUnits pk then (false, none) else
     if (p.response "alpha").getD 0 > revBTwoZk then (false, none) else
     match sacc.unmarshalVerify o keyId pk with
     | none => (false, none)
@@ -181,17 +192,24 @@ def RangeProof.extractStructure (p : RangeProof) (index : Int) (pk : PublicKey) 
       bitLen k > pk.params.Lm + 64 || (p.cs.length = 3 && p.a ≠ 4) then none
   rangeNewWithParams index p.sign p.a k p.cs.length p.ld
 
+/-- `0 < c < n` and `gcd(c, n) = 1`. -/
+def unitMod (c n : Int) : Bool := decide (0 < c) && decide (c < n) && decide (Int.gcd c n = 1)
+
 /-- `ProofStructure.VerifyProofStructure(pk, p)`. -/
 def RangeStructure.verifyProofStructure (s : RangeStructure) (pk : PublicKey) (p : RangeProof) : Bool :=
   let pr := pk.params
   if s.cRep.length ≠ p.cs.length || s.cRep.length ≠ p.ds.length || s.cRep.length ≠ p.vs.length then false else
   match p.v5, p.mResponse with
   | some v5, some m =>
+    if decide (v5 < 0) || decide (m < 0) then false else
     if bitLen v5 > pr.Lm + s.ld + 2 + pr.Lh + pr.Lstatzk + 1 || bitLen m > pr.Lm + pr.Lh + pr.Lstatzk + 1 then false
     else
       (List.range s.cRep.length).all fun i =>
         match p.cs[i]?, p.ds[i]?, p.vs[i]? with
         | some (some c), some (some d), some (some v) =>
+          !(decide (d < 0) || decide (v < 0)) &&
+          -- the prover-chosen bases must be units modulo n
+          unitMod c pk.n &&
           !(bitLen c > bitLen pk.n || bitLen d > s.ld + pr.Lh + pr.Lstatzk + 1 ||
             bitLen v > pr.Lm + pr.Lh + pr.Lstatzk + 1)
         | _, _, _ => false
